@@ -6,7 +6,12 @@ Stages (each appends to ctx.corr_bad / ctx.spec_bad; add further stages to STAGE
                     the IMPLEMENTATION outputs.
   stage_similar     checkSimilarPaths on sequences of paths (pairs exhaustive over a segment
                     alphabet and over short byte strings, triples sampled).
-The end-to-end binding stage (pathVariables in the JSON output) is appended by the owner of C13.
+  stage_binding      end to end: generated path trees (shared prefixes, parameters at any depth, Path under
+                    URL or under a method, declared once for a prefix and used by longer paths) and faulty
+                    variants; interactions[*].pathVariables of the implementation against the independent
+                    statement of binding_correct below (spec_binding), the rejections against
+                    unmatched_property_rejected / duplicate_prefix_rejected / bad_path_* / path_body_not_flat_rejected,
+                    and the catalog model against the implementation (corecheck.compare_full).
 """
 import json
 import random
@@ -238,7 +243,307 @@ def stage_similar(cx):
     res.notes["similar_distribution"] = {"sequences": len(seqs), "impl_verdicts": dist}
 
 
-STAGES = [stage_pathparams, stage_similar]
+# ---------------------------------------------------------------------------------------
+# binding (props/C13.v binding_correct and the rejections)
+
+BIND_LITERALS = ["a", "b", "c"]
+BIND_PARAMS = ["{x}", "{y}", "{z}", "{w}"]
+
+
+def param_prefixes(path: str):
+    """[(prefix tuple, name)] of the {name} segments of a path, in path order"""
+    segs = [x for x in path.split("/") if x]
+    out = []
+    for i, sg in enumerate(segs):
+        if len(sg) >= 2 and sg[0] == "{" and sg[-1] == "}":
+            out.append((tuple(segs[:i + 1]), sg[1:-1]))
+    return out
+
+
+def spec_binding(interactions, decls):
+    """independent statement of binding_correct.
+    interactions: [(method, path)]; decls: [(path of the Path directive, [property names])].
+    A prefix is bound iff some Path directive has it among its path's parameters with a property of
+    that name; pathVariables = the names of the bound {name} segments, in path order."""
+    bound = set()
+    for dpath, props in decls:
+        for pre, name in param_prefixes(dpath):
+            if name in props:
+                bound.add(pre)
+    return {(m, p): [name for pre, name in param_prefixes(p) if pre in bound] for m, p in interactions}
+
+
+def gen_path_set(rnd, k):
+    paths = []
+    tries = 0
+    while len(paths) < k and tries < 200:
+        tries += 1
+        depth = rnd.randint(1, 4)
+        segs, used = [], set()
+        base = rnd.choice(paths).split("/")[1:] if paths and rnd.random() < 0.6 else []
+        segs = base[:rnd.randint(0, len(base))]
+        used = {x for x in segs if x.startswith("{")}
+        while len(segs) < depth:
+            c = rnd.choice(BIND_LITERALS + BIND_PARAMS)
+            if c in used:
+                continue
+            if c.startswith("{"):
+                used.add(c)
+            segs.append(c)
+        p = "/" + "/".join(segs)
+        if p in paths:
+            continue
+        if any(conflict(p.encode(), q.encode()) for q in paths):
+            continue
+        paths.append(p)
+    return paths
+
+
+class BDoc:
+    """a document of URL / method directives with Path directives; hosts are (kind, index) pairs"""
+
+    def __init__(self, layout):
+        self.layout = layout          # [("URL", path, [methods]) | ("M", path, method)]
+        self.paths_at = {}            # host key -> [names]   (one Path directive per host)
+        self.body_override = {}       # host key -> body lines
+
+    def hosts(self):
+        out = []
+        for i, it in enumerate(self.layout):
+            if it[0] == "URL":
+                out.append((("U", i), it[1]))
+                for j, m in enumerate(it[2]):
+                    out.append((("UM", i, j), it[1]))
+            else:
+                out.append((("M", i), it[1]))
+        return out
+
+    def interactions(self):
+        out = []
+        for it in self.layout:
+            if it[0] == "URL":
+                out += [(m, it[1]) for m in it[2]]
+            else:
+                out.append((it[2], it[1]))
+        return out
+
+    def decls_in_order(self):
+        """(host key, path, names) in the order collectPaths meets the Path directives"""
+        hp = dict(self.hosts())
+        return [(h, hp[h], self.paths_at[h]) for h, _ in self.hosts() if h in self.paths_at]
+
+    def tree(self, C11):
+        n = C11.n
+        nodes = [n("JSIGHT 0.3")]
+        self.path_nodes = {}
+
+        def pathdir(h):
+            if h not in self.paths_at and h not in self.body_override:
+                return []
+            names = self.paths_at.get(h, [])
+            body = self.body_override.get(h) or ("{\n" + ",\n".join('  "%s": 1' % x for x in names) + "\n}")
+            nd = n("Path", body=body)
+            self.path_nodes[h] = nd
+            return [nd]
+
+        self.dir_nodes = {}
+        for i, it in enumerate(self.layout):
+            if it[0] == "URL":
+                kids = pathdir(("U", i))
+                for j, m in enumerate(it[2]):
+                    mn = n(m, *(pathdir(("UM", i, j)) + [n("200 any")]))
+                    self.dir_nodes[("UM", i, j)] = mn
+                    kids.append(mn)
+                un = n("URL " + it[1], *kids)
+                self.dir_nodes[("U", i)] = un
+                nodes.append(un)
+            else:
+                mn = n(it[2] + " " + it[1], *(pathdir(("M", i)) + [n("200 any")]))
+                self.dir_nodes[("M", i)] = mn
+                nodes.append(mn)
+        return nodes
+
+
+def gen_bdoc(rnd, paths=None):
+    paths = paths or gen_path_set(rnd, rnd.randint(1, 5))
+    layout = []
+    for p in paths:
+        if rnd.random() < 0.5:
+            layout.append(("URL", p, rnd.sample(["GET", "POST", "PUT"], rnd.randint(1, 2))))
+        else:
+            layout.append(("M", p, rnd.choice(["GET", "POST", "DELETE"])))
+    d = BDoc(layout)
+    prefixes = {}
+    for _, p in d.hosts():
+        for pre, name in param_prefixes(p):
+            prefixes[pre] = name
+    for pre, name in sorted(prefixes.items()):
+        if rnd.random() < 0.3:
+            continue
+        cands = [h for h, p in d.hosts() if (pre, name) in param_prefixes(p)]
+        h = rnd.choice(cands)
+        d.paths_at.setdefault(h, []).append(name)
+    return d
+
+
+def pathvars_of_json(b):
+    from .. import skeleton as SK
+    v, _ = SK.parse_pairs(b)
+    out = {}
+    for k, i in SK.get(v, "interactions", []) or []:
+        if SK.get(i, "protocol") != "http":
+            continue
+        pv = SK.get(i, "pathVariables")
+        names = None
+        if pv is not None:
+            content = SK.get(SK.get(pv, "schema", []), "content", [])
+            names = [SK.get(c, "key", "") for c in (SK.get(content, "children", []) or [])]
+        out[(SK.get(i, "httpMethod", ""), SK.get(i, "path", ""))] = names
+    return out
+
+
+def stage_binding(cx):
+    from . import c11 as C11
+    from .. import corecheck as K
+    from .. import proj as P
+    res = cx.res
+    if cx.replay is not None and "binding" not in cx.replay:
+        return
+    rnd = random.Random(cx.seed + 31)
+    quick = cx.tier == "quick"
+    cases = []     # (label, BDoc, expectation) expectation = ("ok",) | ("reject", needle, host key whose Path / directive is at fault)
+    docs = []
+    # family: shared prefixes, every choice of host for every prefix (exhaustive)
+    fam = ["/a/{x}", "/a/{x}/b", "/a/{x}/b/{y}", "/a/{x}/c/{z}"]
+    lay = [("URL", fam[0], ["GET", "POST"]), ("M", fam[1], "GET"), ("URL", fam[2], ["PUT"]), ("M", fam[3], "DELETE")]
+    base = BDoc(lay)
+    pres = sorted({pn for _, p in base.hosts() for pn in param_prefixes(p)})
+    choices = []
+    for pre, name in pres:
+        choices.append([None] + [h for h, p in base.hosts() if (pre, name) in param_prefixes(p)])
+    import itertools
+    for combo in itertools.product(*choices):
+        d = BDoc(lay)
+        for (pre, name), h in zip(pres, combo):
+            if h is not None:
+                d.paths_at.setdefault(h, []).append(name)
+        docs.append(("family", d))
+    if quick:
+        docs = rnd.sample(docs, min(len(docs), 250))
+    for _ in range(250 if quick else 4000):
+        docs.append(("random", gen_bdoc(rnd)))
+    docs.append(("nothing-declared", BDoc(lay)))
+    for label, d in docs:
+        cases.append((label, d, ("ok",)))
+    # faulty variants
+    for label, d in docs[::3]:
+        dl = d.decls_in_order()
+        if dl:
+            h, p, names = rnd.choice(dl)
+            e = BDoc(d.layout)
+            e.paths_at = {k: list(v) for k, v in d.paths_at.items()}
+            e.paths_at[h] = e.paths_at[h] + ["zzq"]
+            cases.append(("unmatched-property", e, ("reject", "Has unused parameters", ("path", h))))
+            # the same prefix declared by a second Path directive
+            name = rnd.choice(names)
+            pre = next(pr for pr, nm in param_prefixes(p) if nm == name)
+            cands = [k for k, q in d.hosts() if k != h and (pre, name) in param_prefixes(q)]
+            if cands:
+                h2 = rnd.choice(cands)
+                e = BDoc(d.layout)
+                e.paths_at = {k: list(v) for k, v in d.paths_at.items()}
+                if name not in e.paths_at.get(h2, []):
+                    e.paths_at.setdefault(h2, []).append(name)
+                    order = [k for k, _ in e.hosts() if k in e.paths_at]
+                    second = h2 if order.index(h2) > order.index(h) else h
+                    cases.append(("duplicate-prefix", e, ("reject", "has already been defined earlier", ("path", second))))
+            for body, needle in (("[1]", None), ("1", None), ('{\n  "%s": {"k": 1}\n}' % names[0], None), ("{}", None)):
+                e = BDoc(d.layout)
+                e.paths_at = {k: list(v) for k, v in d.paths_at.items()}
+                e.body_override[h] = body
+                cases.append(("path-body-not-flat-object", e, ("reject", needle, ("path", h))))
+        # an empty or repeated {name} in one path
+        i = rnd.randrange(len(d.layout))
+        for bad, needle in (("/{}", "incorrect empty PATH parameter"), ("/{x}/q/{x}", "is duplicated in the path")):
+            lay2 = list(d.layout)
+            it = lay2[i]
+            newp = (it[1].rstrip("/") if "{x}" not in it[1] or bad == "/{}" else "/q") + bad
+            if any(conflict(newp.encode(), q[1].encode()) for k, q in enumerate(lay2) if k != i):
+                continue
+            lay2[i] = (it[0], newp, it[2])
+            e = BDoc(lay2)
+            cases.append(("bad-path", e, ("reject", needle, ("dir", ("U", i) if it[0] == "URL" else ("M", i)))))
+    if cx.replay is not None:
+        cases = []
+    projects, metas = [], []
+    for label, d, exp in cases:
+        tree = d.tree(C11)
+        files, spans = C11.project(tree)
+        projects.append(files)
+        metas.append((label, d, exp, spans))
+    if cx.replay is not None:
+        projects = [[(C.unhx(a), C.unhx(b)) for a, b in cx.replay["project"]]]
+        metas = [("replay", None, None, {})]
+    outs = C.run_sharded("harness", "fn", [P.run_line("-", pj) for pj in projects])
+    res.count(len(outs))
+    dist = {}
+    for (label, d, exp, spans), pj, out in zip(metas, projects, outs):
+        if d is None:
+            continue
+        st, dd = P.parse(out)
+        dist.setdefault(label, {"cases": 0, "ok": 0, "err": 0})
+        dist[label]["cases"] += 1
+        dist[label][st] = dist[label].get(st, 0) + 1
+        rp = {"stage": "binding", "binding": label, "project": [(C.hx(a), C.hx(b)) for a, b in pj], "impl": out[:200]}
+        text = pj[0][1].decode()
+        if exp[0] == "ok":
+            want = spec_binding(d.interactions(), [(p, names) for _, p, names in d.decls_in_order()])
+            if st != "ok":
+                msg = C.unhx(dd.get("msg", "-")).decode("latin1") if st == "err" else st
+                cx.spec_bad.append(("binding: a document whose every declared prefix is declared once and whose every property "
+                                    "names a parameter is rejected (%s):\n%s" % (msg[:120], text[:700]), dict(rp, theorem="binding_correct")))
+                continue
+            got = pathvars_of_json(C.unhx(dd["json"]))
+            if any(v for v in want.values()):
+                res.nontrivial(("bind", text))
+            for key, names in want.items():
+                g = got.get(key)
+                if (g or []) != names or (not names and g not in (None, [])):
+                    cx.spec_bad.append(("binding: pathVariables of %s %s are %r, the specification says %r; document:\n%s" % (
+                        key[0], key[1], g, names, text[:700]), dict(rp, theorem="binding_correct", expected={"%s %s" % k: v for k, v in want.items()})))
+                    break
+        else:
+            res.nontrivial(("reject", label, text))
+            _, needle, (what, h) = exp
+            if st != "err":
+                cx.spec_bad.append(("binding: faulty variant %s is accepted:\n%s" % (label, text[:700]),
+                                    dict(rp, theorem={"unmatched-property": "unmatched_property_rejected", "duplicate-prefix": "duplicate_prefix_rejected",
+                                                      "bad-path": "bad_path_of_url_or_method_rejected"}.get(label, "path_body_not_flat_rejected"))))
+                continue
+            msg = C.unhx(dd["msg"]).decode("latin1")
+            nd = d.path_nodes[h] if what == "path" else d.dir_nodes[h]
+            span = spans[nd.uid]
+            loc = (C.unhx(dd["file"]).decode(), int(dd["idx"]))
+            if (needle and needle not in msg) or not (loc[0] == span[0] and span[1] <= loc[1] <= span[2]):
+                cx.spec_bad.append(("binding: faulty variant %s: diagnostic %r at %s:%d, expected %r inside %r; document:\n%s" % (
+                    label, msg[:100], loc[0], loc[1], needle, span, text[:700]), rp))
+    res.notes["binding_distribution"] = dist
+    if len(cases) > 5:
+        k = next((k for k, c in enumerate(cases) if c[0] == "random" and c[1].paths_at), 0)
+        res.sample({"binding_document": projects[k][0][1].decode()[:400], "impl": outs[k][:60]})
+    recs = K.compare_full(projects)
+    res.coverage["traces_validated_against_impl"] += len(recs)
+    kinds = {}
+    for r in recs:
+        kinds[r["kind"]] = kinds.get(r["kind"], 0) + 1
+        if r["kind"] not in ("same", "library"):
+            cx.corr_bad.append(("catalog skeleton / diagnostic", {"stage": "binding", "binding": "correspondence",
+                                                                  "project": [(C.hx(a), C.hx(b)) for a, b in projects[r["k"]]]},
+                                r["impl"][:200], r["model"][:200]))
+    res.notes["binding_correspondence"] = kinds
+
+
+STAGES = [stage_pathparams, stage_similar, stage_binding]
 
 
 def run(res, tier, seed, replay):
@@ -247,7 +552,10 @@ def run(res, tier, seed, replay):
                             "plus seeded random strings over a pool with NUL, 0xFF, '%', '\\\\', UTF-8 bytes; "
                             "non-trivial = the implementation reports a parameter or an error; "
                             "similar: all ordered pairs of paths of <=3 segments over {a,b,{x},{y},{}} and of byte strings "
-                            "up to the bound, sampled longer sequences; non-trivial = rejected")
+                            "up to the bound, sampled longer sequences; non-trivial = rejected; "
+                            "binding: one family of paths with shared prefixes, every prefix undeclared or declared at every "
+                            "possible host (URL or method), random path trees of <= 5 paths and depth <= 4, and faulty variants "
+                            "(unmatched property, prefix declared twice, {} / repeated {name}, Path body that is not a flat object)")
     if not (pr.harness_ok and pr.model_ok):
         res.violation("build failed: " + (pr.harness_err or pr.model_err)[-800:],
                       {"obligation": "build of harness/model"}, found_input=False)
